@@ -78,9 +78,9 @@ LEADS = ['{n}*{m}+{o}', '2*({n}-{m})', 'max({n},{m})', '{n}**2', '{n}', '-{n}', 
 def gen_history(rng):
     names = rng.sample(POOL, rng.randint(1, 6))
     kind = rng.choice(['none', 'none', 'emptylist', 'blob', 'blob', 'blob', 'strrhs', 'like_term', 'one_string',
-                       'one_string_comment'])
+                       'one_string_comment', 'comment_in_name_with_rhs'])
     lead = None
-    if kind in ('blob', 'strrhs', 'one_string', 'one_string_comment'):
+    if kind in ('blob', 'strrhs', 'one_string', 'one_string_comment', 'comment_in_name_with_rhs'):
         t = rng.choice(LEADS[:-1])
         lead = t.format(n=rng.choice(names), m=rng.choice(names), o=rng.choice(names))
     elif kind == 'like_term':
@@ -98,7 +98,12 @@ def gen_history(rng):
         terms.append(('-(' + t[2] + ')' if t[1] > 0 else t[2], -t[1], t[2]))
     # some terms are passed as Term objects; equal texts share ONE object (a caller re-using a Term), and some
     # terms also go into a second equation built alongside (sharing the same objects)
-    flags = [{'as_obj': rng.random() < 0.35, 'eq2': rng.random() < 0.25} for _ in terms]
+    # a few terms are plain numbers handed over as Python floats (with more digits than '%f' keeps)
+    for _ in range(rng.choice([0, 0, 1, 2])):
+        f_ = rng.choice([1.0 / 3.0, 2.0 / 7.0, 0.0123456789, 123.4567891, 0.3333334])
+        terms.insert(rng.randint(0, len(terms)), (repr(f_), 1.0, repr(f_), 'as_float'))
+    flags = [{'as_obj': rng.random() < 0.35 and len(t_) == 3, 'eq2': rng.random() < 0.25, 'as_float': len(t_) == 4} for t_ in terms]
+    terms = [t_[:3] for t_ in terms]
     return {'lead_kind': kind, 'lead': lead, 'terms': [list(t) for t in terms], 'names': names, 'flags': flags}
 
 
@@ -172,7 +177,8 @@ class C12(object):
                    'valuations use exactly representable values, so == is the comparison']
     required_counters = ('addterm.post_evaluated', 'termlist.judged', 'insitu.addterm.post_evaluated', 'sector.histories',
                          'sector.rhs_replaced_mid_history',
-                         'addterm.unsupported_form_offered')
+                         'addterm.unsupported_form_offered',
+                         'addterm.python_float_passed')
 
     def n_cases(self, tier):
         return (15 if tier == 'quick' else 1500) + 1
@@ -202,6 +208,9 @@ class C12(object):
             eq = Equation('v = ' + lead)                       # "lhs = rhs" in the first argument
         elif kind == 'one_string_comment':
             eq = Equation('v = ' + lead + '  # a description with = and # inside')
+        elif kind == 'comment_in_name_with_rhs':
+            # the comment rides on the NAME argument, the right-hand side is passed separately
+            eq = Equation('v # a description, no equals sign in it', rhs=lead)
         elif kind in ('blob', 'like_term'):
             eq = Equation('v', 'desc', rhs=[Term(lead, is_blob=True)])
         else:
@@ -217,6 +226,9 @@ class C12(object):
         flags = h.get('flags') or [{'as_obj': False, 'eq2': False}] * len(h['terms'])
         for j, (text, sign, core) in enumerate(h['terms']):
             arg = text
+            if flags[j].get('as_float'):
+                arg = float(text)
+                rec.count('addterm.python_float_passed')
             if flags[j]['as_obj']:
                 key = text.replace(' ', '')
                 if key not in objpool:
